@@ -300,7 +300,9 @@ def brokerVerdicts (pre : Server) (ws : List String) (core flags : String) : Lis
       let num (s : String) (key : String) : Option Int :=
         (s.splitOn " ").findSome? fun w => if w.startsWith (key ++ "=") then (w.drop (key.length + 1)).toString.toInt? else none
       let act := ((flags.splitOn "V[actual ").getD 1 "").replace "]" ""
-      ["connected", "subs", "retained", "inflight"].flatMap fun k =>
+      -- a handler parked in the middle of its teardown (bk.drophold) is not a quiescent state: its
+      -- connection is gone but its deferred counter decrement has not run yet
+      (if pre.parked.isEmpty then ["connected", "subs", "retained", "inflight"] else ["subs", "retained", "inflight"]).flatMap fun k =>
         match num core k, num act k with
         | some r, some a =>
           (if r < 0 then [fail "C38" "-" s!"counter {k} is negative ({r})"] else []) ++
